@@ -455,3 +455,11 @@ Print Assumptions C13_rep_val_is_repetition.
 Theorem C13_gen_facts : NL_GMATCH_HAS_LASTMATCH = true /\ GMATCH_MAX_CAPTURES = 8.
 Proof. exact gen_facts. Qed.
 Print Assumptions C13_gen_facts.
+
+(* string.find (after d52527d) takes the plain search exactly when Lua's str_find_aux does (plain requested, or no
+   special character in the pattern); string.match never does - so find('A)A', ')') is 2 2 and match('A)A', ')') an
+   error, on both sides *)
+Theorem C13_find_plain_decision_eq_lua : forall pat plain,
+  nl_use_plain pat plain true = lua_use_plain pat plain true /\ nl_use_plain pat false false = lua_use_plain pat plain false.
+Proof. exact use_plain_eq_lua. Qed.
+Print Assumptions C13_find_plain_decision_eq_lua.
